@@ -176,6 +176,10 @@ impl Live {
     /// and whether the marker arrived
     async fn inject(&mut self, victim_client: bool, ds: &[Vec<u8>], foreign: bool) -> (Vec<Vec<u8>>, &'static str, bool) {
         self.drain(victim_client);
+        self.inject_keep(victim_client, ds, foreign).await
+    }
+    /// same, but everything the upper layer received since the transport was created counts (nothing is drained first)
+    async fn inject_keep(&mut self, victim_client: bool, ds: &[Vec<u8>], foreign: bool) -> (Vec<Vec<u8>>, &'static str, bool) {
         let dir = Live::dir_from(!victim_client);
         let vaddr = self.addr(victim_client);
         for d in ds {
@@ -483,7 +487,7 @@ async fn handshaking_case(out: &mut Out, st: &mut Stats, victim_client: bool, ds
     let rx = if victim_client { [rxv, rxo] } else { [rxo, rxv] };
     let mut live = Live { pair, keys, rx, sent: [0, 0], marker: 0, foreign: Arc::new(fsock), seen: [Default::default(), Default::default()] };
     // everything the victim's upper layer received so far came from the injected records
-    let (got, _post, arrived) = live.inject(victim_client, &[], false).await;
+    let (got, _post, arrived) = live.inject_keep(victim_client, &[], false).await;
     let kind = "rx-handshaking";
     if pre != "Handshaking" {
         // the hold did not work on this run (timing): report the case to the oracle only
@@ -495,6 +499,46 @@ async fn handshaking_case(out: &mut Out, st: &mut Stats, victim_client: bool, ds
     if fin != "Connected" {
         push(out, st, kind, "-".into(), json!({"inject_during_handshake": what, "final": fin}), Some(format!("victim ended {} instead of Connected [{}]", fin, what)), true, format!("hsk-fin{}{}", victim_client, what));
     }
+}
+
+// ---- injections BEFORE the victim has keys (first flight toward it held back by the proxy): epoch-0
+// ApplicationData is never valid; nothing may reach the upper layer. (Alerts / handshake records in epoch 0
+// are legitimate at this stage and not C03's subject.)
+async fn prekeys_case(out: &mut Out, st: &mut Stats, victim_client: bool, ds: Vec<Vec<u8>>, what: &str, foreign: bool) {
+    let toward = Live::dir_from(!victim_client);
+    let policy: Policy = Box::new(move |d, o, p| if d == toward && o < 4 { vec![(Duration::from_millis(300), p.to_vec())] } else { forward(p) });
+    let mut pair = dtls_pair_with(Some(policy), None, None).await;
+    st.pairs += 1;
+    let rxv = if victim_client { pair.client.app_rx.take().unwrap() } else { pair.server.app_rx.take().unwrap() };
+    let rxo = if victim_client { pair.server.app_rx.take().unwrap() } else { pair.client.app_rx.take().unwrap() };
+    tokio::time::sleep(Duration::from_millis(60)).await;
+    let vd = if victim_client { pair.client.dtls.clone() } else { pair.server.dtls.clone() };
+    let pre = st_name(&vd.get_state());
+    let vaddr = if victim_client { pair.client.ep.addr } else { pair.server.ep.addr };
+    let fsock = UdpSocket::bind("127.0.0.1:0").await.unwrap();
+    for d in &ds { if foreign { let _ = fsock.send_to(d, vaddr).await; } else { pair.proxy.as_ref().unwrap().inject(toward, d.clone()); } }
+    tokio::time::sleep(Duration::from_millis(80)).await;
+    let mid = st_name(&vd.get_state());
+    let c = wait_dtls_terminal(&pair.client.dtls, Duration::from_secs(8)).await;
+    let s = wait_dtls_terminal(&pair.server.dtls, Duration::from_secs(8)).await;
+    let both = matches!(c, DtlsState::Connected(..)) && matches!(s, DtlsState::Connected(..));
+    let fin = st_name(&vd.get_state());
+    let kind = "rx-before-keys";
+    if !both || pre != "Handshaking" {
+        push(out, st, kind, "-".into(), json!({"inject_before_keys": what, "victim_client": victim_client, "pre": pre, "mid": mid, "final": fin, "note": "setup did not reach the intended state"}), None, false, format!("prek-x{}{}", victim_client, what));
+        return;
+    }
+    let keys = Keys::of(&pair.client.dtls);
+    let rx = if victim_client { [rxv, rxo] } else { [rxo, rxv] };
+    let mut live = Live { pair, keys, rx, sent: [0, 0], marker: 0, foreign: Arc::new(fsock), seen: [Default::default(), Default::default()] };
+    let (got, _post, arrived) = live.inject_keep(victim_client, &[], false).await;
+    let mut fail = None;
+    if let Some(g) = got.first() { fail = Some(format!("UNAUTHENTICATED BYTES DELIVERED to the upper layer before any key existed: {} ({} bytes) [{}; from {}]", hex(g), g.len(), what, if foreign { "foreign address" } else { "peer address" })); }
+    if !arrived { fail.get_or_insert(format!("receiver stopped processing [{}]", what)); }
+    let term = format!("CRxNoKeys {} {} {} {} {}", bool_term(victim_client), st_term(pre), list_term(&ds.iter().map(|d| bytes_term(d)).collect::<Vec<_>>()),
+        list_term(&got.iter().map(|g| bytes_term(g)).collect::<Vec<_>>()), st_term(mid));
+    push(out, st, kind, term, json!({"inject_before_keys": {"what": what, "victim_client": victim_client, "foreign_source": foreign, "datagrams": ds.iter().map(|d| hex(d)).collect::<Vec<_>>(), "pre": pre, "mid": mid, "final": fin, "delivered": got.iter().map(|g| hex(g)).collect::<Vec<_>>()}}),
+        fail, true, format!("prek{}{}{}", victim_client, foreign, fnv(&ds.concat())));
 }
 
 // ---- thorough only: callers spinning on send() while the handshake completes. handle_finished publishes
@@ -825,6 +869,12 @@ async fn main() {
         ].into_iter().enumerate() {
             handshaking_case(&mut out, &mut st, victim_client, ds, what, i == 1).await;
         }
+    }
+
+    // ================================================================= before any key exists: epoch-0 ApplicationData
+    for victim_client in [true, false] {
+        prekeys_case(&mut out, &mut st, victim_client, vec![plain(23, 0, 40, b"PLAINTEXT-BEFORE-KEYS")], "plaintext epoch-0 ApplicationData before keys", false).await;
+        prekeys_case(&mut out, &mut st, victim_client, vec![[plain(23, 0, 41, b"A"), plain(23, 0, 42, b"B")].concat()], "two plaintext epoch-0 ApplicationData records in one datagram before keys", true).await;
     }
 
     // ================================================================= thorough: send() racing the end of the handshake
